@@ -421,44 +421,86 @@ func (a Float) M__round__(digitsObj Object) (Object, error) {
 
 // Rich comparison
 
+// The largest magnitude up to which every integer is a float64
+const maxExactFloatInt = 1 << float64precision
+
+// floatCompareOperands returns two floats which compare as a and
+// other do.
+//
+// A comparison of a float with an int is exact in Python, but an int
+// beyond 2**53 is not in general a float64, so it is not converted:
+// the two are compared exactly and the result (-1, 0 or +1) is
+// returned for comparison with zero.
+func floatCompareOperands(a Float, other Object) (x, y Float, ok bool) {
+	switch b := other.(type) {
+	case Float:
+		return a, b, true
+	case Bool:
+		if b {
+			return a, 1, true
+		}
+		return a, 0, true
+	case Int:
+		if b >= -maxExactFloatInt && b <= maxExactFloatInt {
+			return a, Float(b), true
+		}
+		return floatCompareBig(a, big.NewInt(int64(b)))
+	case *BigInt:
+		return floatCompareBig(a, (*big.Int)(b))
+	}
+	return 0, 0, false
+}
+
+// floatCompareBig is floatCompareOperands for an integer of any size
+func floatCompareBig(a Float, b *big.Int) (x, y Float, ok bool) {
+	f := float64(a)
+	if math.IsNaN(f) || math.IsInf(f, 0) {
+		// nan is unordered, and an infinity compares with
+		// every integer as it does with zero
+		return a, 0, true
+	}
+	c := new(big.Float).SetFloat64(f).Cmp(new(big.Float).SetInt(b))
+	return Float(c), 0, true
+}
+
 func (a Float) M__lt__(other Object) (Object, error) {
-	if b, ok := convertToFloat(other); ok {
-		return NewBool(a < b), nil
+	if x, y, ok := floatCompareOperands(a, other); ok {
+		return NewBool(x < y), nil
 	}
 	return NotImplemented, nil
 }
 
 func (a Float) M__le__(other Object) (Object, error) {
-	if b, ok := convertToFloat(other); ok {
-		return NewBool(a <= b), nil
+	if x, y, ok := floatCompareOperands(a, other); ok {
+		return NewBool(x <= y), nil
 	}
 	return NotImplemented, nil
 }
 
 func (a Float) M__eq__(other Object) (Object, error) {
-	if b, ok := convertToFloat(other); ok {
-		return NewBool(a == b), nil
+	if x, y, ok := floatCompareOperands(a, other); ok {
+		return NewBool(x == y), nil
 	}
 	return NotImplemented, nil
 }
 
 func (a Float) M__ne__(other Object) (Object, error) {
-	if b, ok := convertToFloat(other); ok {
-		return NewBool(a != b), nil
+	if x, y, ok := floatCompareOperands(a, other); ok {
+		return NewBool(x != y), nil
 	}
 	return NotImplemented, nil
 }
 
 func (a Float) M__gt__(other Object) (Object, error) {
-	if b, ok := convertToFloat(other); ok {
-		return NewBool(a > b), nil
+	if x, y, ok := floatCompareOperands(a, other); ok {
+		return NewBool(x > y), nil
 	}
 	return NotImplemented, nil
 }
 
 func (a Float) M__ge__(other Object) (Object, error) {
-	if b, ok := convertToFloat(other); ok {
-		return NewBool(a >= b), nil
+	if x, y, ok := floatCompareOperands(a, other); ok {
+		return NewBool(x >= y), nil
 	}
 	return NotImplemented, nil
 }
